@@ -72,7 +72,17 @@ func runDriver(verif, repo, pkg, focus string, deep bool) replayResult {
 		return replayResult{Note: err.Error()}
 	}
 	defer os.RemoveAll(tmp)
-	ov := map[string]any{"Replace": map[string]string{filepath.Join(repo, d.file): src}}
+	repl := map[string]string{filepath.Join(repo, d.file): src}
+	var extraEnv []string
+	if pkg == "server" {
+		// the timing scenarios of the backup task run on virtual time (testing/synctest, an experiment in go1.24)
+		comp := "server/zz_verif_replay_timing_test.go"
+		if _, err := os.Stat(filepath.Join(replayRoot(verif), "replay", comp)); err == nil {
+			repl[filepath.Join(repo, comp)] = filepath.Join(replayRoot(verif), "replay", comp)
+			extraEnv = append(extraEnv, "GOEXPERIMENT=synctest")
+		}
+	}
+	ov := map[string]any{"Replace": repl}
 	b, _ := json.Marshal(ov)
 	ovf := filepath.Join(tmp, "overlay.json")
 	os.WriteFile(ovf, b, 0644)
@@ -89,6 +99,7 @@ func runDriver(verif, repo, pkg, focus string, deep bool) replayResult {
 	if deep {
 		cmd.Env = append(cmd.Env, "VERIF_REPLAY_DEEP=1")
 	}
+	cmd.Env = append(cmd.Env, extraEnv...)
 	out, err := cmd.CombinedOutput()
 	res := replayResult{Attempted: true, Driver: d.file, Command: "cd " + repo + " && VERIF_REPLAY_FOCUS='" + focus + "' go " + strings.Join(args, " ")}
 	s := string(out)
